@@ -50,8 +50,9 @@ AnnRefs == {ByH(h) : h \in LiveAnns(st)} \cup (IF Scenario = "tempish" THEN {ByI
 
 OffMenu == IF Small THEN {Off("B", 0, "B", 1), Off("B", 0, "E", 0)}
            ELSE {Off("B", 0, "B", 1), Off("B", 1, "B", 2), Off("B", 0, "E", 0), Off("E", -1, "E", 0), Off("B", 2, "B", 2)}
-BadOffMenu == IF Small THEN {Off("B", 2, "B", 1), Off("E", 1, "E", 0)}
-              ELSE {Off("B", 2, "B", 1), Off("B", 0, "B", 9), Off("E", 1, "E", 0), Off("E", -9, "B", 1)}
+\* (an end beyond the text, from a begin that is and one that is not already a boundary of a known selection)
+BadOffMenu == IF Small THEN {Off("B", 2, "B", 1), Off("E", 1, "E", 0), Off("B", 0, "B", 9), Off("B", 1, "B", 9), Off("B", 2, "B", 9)}
+              ELSE {Off("B", 2, "B", 1), Off("B", 0, "B", 9), Off("B", 1, "B", 9), Off("E", 1, "E", 0), Off("E", -9, "B", 1)}
 RelOffMenu == IF Small THEN {Off("B", 0, "E", 0)} ELSE {Off("B", 0, "E", 0), Off("B", 0, "B", 1), Off("E", -1, "E", 0)}
 
 SimpleTargets ==
@@ -260,6 +261,18 @@ PreludeOps ==
                               ann("c2", Complex("Multi", <<t(2, 4), t(0, 5), t(4, 6)>>), <<>>),
                               ann("c3", Complex("Directional", <<t(1, 2), t(0, 5)>>), <<>>),
                               ann("c4", Complex("Composite", <<t(0, 3), t(1, 2), t(2, 3)>>), <<>>)>>
+         \* 18: a key that never had data, declared last, with an annotation on it and one on that annotation
+         [] Prelude = 18 -> <<addres, addset, ann("a1", txt(0, 1), d1),
+                              [ev |-> "AddKey", a |-> [set |-> ById("s1"), id |-> "k8"]],
+                              [ev |-> "AddKey", a |-> [set |-> ById("s1"), id |-> "k9"]],
+                              ann("m1", TB("Key", ById("s1"), ById("k9"), NoOffset), <<>>),
+                              ann("m2", TB("Ann", ById("m1"), NoRef, NoOffset), <<>>),
+                              ann("m3", TB("Key", ById("s1"), ById("k8"), NoOffset), d1)>>
+         \* 19: one key with five data items (removals in any order must keep the key's row exact), another with one
+         [] Prelude = 19 -> LET e(k, v) == DB(ById("s1"), ById(k), NoRef, StrVal(v)) IN
+                            <<addres, addset, ann("a1", txt(0, 1), <<e("k1", "v1"), e("k1", "v2"), e("k1", "v3")>>),
+                              ann("a2", txt(1, 2), <<e("k1", "v4"), e("k2", "v1"), e("k1", "v5")>>),
+                              ann("a3", txt(0, 2), <<e("k1", "v2"), e("k1", "v5")>>)>>
          \* 6: metadata annotations on keys/data/sets and annotations on annotations (chain + relative offset)
          [] OTHER -> <<addres, addset, ann("a1", txt(0, 2), d1),
                        ann("", TB("Key", ById("s1"), ById("k1"), NoOffset), <<>>),
